@@ -176,7 +176,10 @@ def judge (prop : String) (j : Json) : R Verdict := do
       match qs with
       | [(_, q)] =>
         let cands := candidates st q []
-        if nonNegTarget q && cands.length ≤ window then
+        -- queries with two or more references cannot be written in the language: the property
+        -- explores them for soundness only
+        if q.refs.length ≥ 2 then tags := tags ++ ["multi-ref:soundness-only"]
+        else if nonNegTarget q && cands.length ≤ window then
           let coverable := if q.many then (!cands.isEmpty && coversSum q cands) else cands.any (coversOne q)
           -- a query constrained by nothing but lovelace is "too broad", never resolved: excluded
           if coverable then spec := spec ++ ["complete"]
